@@ -15,7 +15,7 @@ RELATIONS = ('independent', 'dependent', 'duplicate', 'negative', 'monotone', 'c
 CONFIGS = ('gaussian-class', 'gaussian-name', 'instance', 'dict', 'kde', 'default')
 
 
-def table(ncol, relations, rs, n=60, labels='str'):
+def table(ncol, relations, rs, n=60, labels='str', scale=1.0):
     cols = ['w3', 'a0', 'm1', 'z4', 'c2', 'k9'][:ncol]         # training order is not the alphabetical order
     z = rs.normal(size=(n, ncol))
     out = {}
@@ -45,6 +45,9 @@ def table(ncol, relations, rs, n=60, labels='str'):
         out[cols[j]] = v
     # a row index that is neither 0..n-1 nor sorted: nothing may be aligned on it by accident
     df = pd.DataFrame(out, index=rs.permutation(n) * 3 + 100)
+    if scale != 1.0:            # far from the origin and on another scale (every relation above is invariant under this map)
+        for j, c in enumerate(df.columns):
+            df[c] = df[c] * scale + 3.0e7 * (1 if j % 2 else -1)
     if labels == 'int':         # column labels need not be strings (nor sorted)
         df.columns = [30, 10, 50, 20, 60, 40][:ncol]
     return df
@@ -86,7 +89,7 @@ def _observe(job):
     from copulas.multivariate import GaussianMultivariate
     rs = np.random.RandomState(seed)
     # most tables have 60 rows; every seventh has 1234 (nothing may depend on the number of rows being small or round)
-    df = table(ncol, relations, rs, n=1234 if seed % 7 == 3 else 60, labels='int' if seed % 5 == 2 else 'str')
+    df = table(ncol, relations, rs, n=1234 if seed % 7 == 3 else 60, labels='int' if seed % 5 == 2 else 'str', scale=250.0 if seed % 9 == 4 else 1.0)
     cols = list(df.columns)
     rec = {'kind': 'corr', 'err': '', 'S': S, 'R': [], 'Rref': [], 'const': [bool(df[c].nunique() == 1) for c in cols], 'mineig': 0,
            'labelsOK': True, 'usable': True, 'desc': '%d|%s|%s' % (ncol, ','.join(relations[1:]), cfg)}
